@@ -122,6 +122,7 @@ static Verdict enumerate(int tier, int shard, int nshards, Fields *failing) {
       u32s s;
       uint64_t x = v;
       for (int i = 0; i < len; i++) { s += alpha[x % K]; x /= K; }
+      { Fields c; c.set32("text", s); c.seti("arm", 90); note_case(c); }
       Verdict r = check_text(s);
       stats().evaluations++;
       if (r.kind == Verdict::FAIL) { failing->set32("text", s); failing->seti("arm", 90); return r; }
@@ -139,6 +140,7 @@ static Verdict enumerate(int tier, int shard, int nshards, Fields *failing) {
       u32s s = U"//[";
       uint64_t x = v;
       for (int i = 0; i < len; i++) { s += lalpha[x % LK]; x /= LK; }
+      { Fields c; c.set32("text", s); c.seti("arm", 91); note_case(c); }
       Verdict r = check_text(s);
       stats().evaluations++;
       if (r.kind == Verdict::FAIL) { failing->set32("text", s); failing->seti("arm", 91); return r; }
